@@ -90,6 +90,7 @@ def run(ctx, model_ok):
     run_lines_independence(ctx)
     run_session_programs(ctx)
     run_eval_then_register(ctx)
+    run_config_change(ctx)
     n_hist = ctx.n(150, 6000)
     cases = []
     for _ in range(n_hist):
@@ -305,6 +306,33 @@ def run_eval_then_register(ctx):
             if x != y:
                 ctx.oracle_fail({"class": "registration-after-evaluation", "what": f"{p_['text']!r} evaluates to {x} when lines were evaluated before the registrations, to {y} otherwise",
                                  "ops": [{"op": "reset"}] + pre + regs + [p_, {"op": "reset"}]})
+                break
+
+
+def run_config_change(ctx):
+    """the result of a text is determined by the configuration at the time, the text and the date: a calculator that evaluated
+    lines under another configuration before evaluates like a fresh calculator given the same final configuration"""
+    rng = ctx.rng
+    CONF = [{"dec": ",", "thou": "."}, {"dec": ".", "thou": ","}, {"dec": ".", "thou": ""}, {"dec": ",", "thou": ""}]
+    LINES = ["1.500 + 1", "1,500 + 1", "2,5 * 2", "2.5 * 2", "3.25 * 2", "-(1.500) * 2", "10,5% of 200", "10.5% of 200", "1.234,5 usd + 1 usd", "1,234.5 usd + 1 usd",
+             "2,5 km to m", "2.5 km to m", "x = 1.250\nx / 2", "12,5 eur", "1.000 kg to g", "0,5 + 0.5", "10 usd to eur", "11:30 EST to CET", "5 march 2020 + 2 days"]
+    for ci in range(ctx.n(120, 3000)):
+        c1, c2 = rng.sample(CONF, 2)
+        extra = rng.choice([[], [{"op": "cfg", "num": [rng.randint(0, 4), rng.random() < 0.5, True]}], [{"op": "tz", "v": rng.choice(["EST", "CET", "GMT+5:30"])}]])
+        pre = [{"op": "exec", "lang": "en", "text": t} for t in rng.sample(LINES, rng.randint(2, 6))]
+        probes = [{"op": "exec", "lang": "en", "text": t} for t in rng.sample(LINES, 8)]
+        setc1 = [dict(op="cfg", **c1)]
+        setc2 = [dict(op="cfg", **c2)] + extra
+        a = C.run_impl([{"op": "reset"}] + setc1 + pre + setc2 + probes + [{"op": "reset"}])
+        b = C.run_impl([{"op": "reset"}] + setc2 + probes + [{"op": "reset"}])
+        ra = [canon_lines(x) for x in a[1 + len(setc1) + len(pre) + len(setc2):-1]]
+        rb = [canon_lines(x) for x in b[1 + len(setc2):-1]]
+        ctx.seen(("config-change", ci), True)
+        ctx.count("config-change-histories")
+        for p_, x, y in zip(probes, ra, rb):
+            if x != y:
+                ctx.oracle_fail({"class": "history-dependence:config-change", "what": f"{p_['text']!r} evaluates to {x} after lines were evaluated under another configuration, to {y} on a fresh calculator with the same configuration",
+                                 "ops": [{"op": "reset"}] + setc1 + pre + setc2 + [p_, {"op": "reset"}]})
                 break
 
 
